@@ -73,11 +73,11 @@ def write_dataset(spec, root):
     return path
 
 
-def gen_dataset(rng, kinds=None, allow_parts=True, cat=False, small=True):
+def gen_dataset(rng, kinds=None, allow_parts=True, cat=False, sizes=None):
     """values are drawn from small ranges so that constants meet chunk bounds, min == max chunks,
     all-null chunks and chunks without statistics all occur"""
     nrg = rng.choice([1, 2, 3, 3, 4, 5])
-    sizes = [rng.choice([1, 2, 3, 4, 6]) for _ in range(nrg)]
+    sizes = [rng.choice(sizes or [1, 2, 3, 4, 6]) for _ in range(nrg)]
     if rng.random() < 0.1:
         sizes[rng.randrange(nrg)] = 0
     sizes = [s for s in sizes if s > 0] or [2]
@@ -209,8 +209,8 @@ def gen_program(rng, spec, chunks_of, cols=None, wrong_type=0.03):
             name = rng.choice(names)
             op = rng.choice(OPS)
             kind = spec["cols"][name]["kind"]
-            if kind in ("bool",) and op in ("<", "<=", ">", ">=") and rng.random() < 0.7:
-                op = rng.choice(["==", "!=", "in", "not in"])
+            if kind in ("bool", "cat") and op in ("<", "<=", ">", ">=") and rng.random() < (0.7 if kind == "bool" else 0.95):
+                op = rng.choice(["==", "!=", "in", "not in"])      # pandas refuses to order an unordered categorical
             if op in ("in", "not in"):
                 k = rng.choice([0, 1, 1, 2, 3])
                 const = [_const_pool(rng, spec, name, chunks_of.get(name)) for _ in range(k)]
@@ -372,9 +372,11 @@ def chunk_bounds(column, se):
     return s.null_count, out[0], out[1]
 
 
-def model_rowgroups(pf, dnf):
+def model_rowgroups(pf, dnf, rows=None, with_cells=None):
     """Gallina text of the abstract row groups of an opened dataset + the conv table for the
-    conditions of `dnf` (list of lists of (name, op, python constant))."""
+    conditions of `dnf` (list of lists of (name, op, python constant)).  Without `rows` a row group
+    holds its own index as its only row (C05); with `rows` (the full read as dicts) it holds
+    (rid, [(column, cell)...]) for the columns `with_cells` (C13)."""
     from fastparquet.util import ex_from_sep
     from fastparquet import api
     rgs = []
@@ -412,8 +414,15 @@ def model_rowgroups(pf, dnf):
                     hits = [(cat, v) for cat, v in pairs if cat == name]
                     for (cat, v), (val2, v0, v1) in zip(hits, rec):
                         table.append("(%s, %s, %s, (%s, %s))" % (coq_str(cat), coq_str(v), to_pv(val), to_pv(_plain(val2)), to_pv(_plain(v0))))
-        rgs.append("{| rg_num_rows := %d; rg_columns := [%s]; rg_parts := %s; rg_rows := [%d] |}" % (
-            rg.num_rows, "; ".join(cols), parts, i))
+        if rows is None:
+            rtxt = "[%d]" % i
+        else:
+            a = sum(r.num_rows for r in pf.row_groups[:i])
+            rtxt = "[%s]" % "; ".join(
+                "(%d, [%s])" % (r["rid"], "; ".join("(%s, %s)" % (coq_str(c), to_pv(r[c])) for c in with_cells))
+                for r in rows[a:a + rg.num_rows])
+        rgs.append("{| rg_num_rows := %d; rg_columns := [%s]; rg_parts := %s; rg_rows := %s |}" % (
+            rg.num_rows, "; ".join(cols), parts, rtxt))
     return "[%s]" % ";\n ".join(rgs), "[%s]" % "; ".join(dict.fromkeys(table))
 
 
